@@ -6,7 +6,7 @@ import vlib
 import check
 import corr_g2o
 
-THEOREMS = ['C13_roundtrip', 'C13_cycles', 'C13_refuses', 'C13_unpack_pack', 'C13_refusal_leaves_no_file_refuted']
+THEOREMS = ['C13_roundtrip', 'C13_cycles', 'C13_refuses', 'C13_cycles_n', 'C13_unpack_pack', 'C13_refusal_leaves_no_file']
 SIGN_FLIP_KEY = 'se3-odometry-w-negative-normalize-changes-chi2'
 
 TRUSTED = [
@@ -16,6 +16,7 @@ TRUSTED = [
     'float(str(x)) == x bitwise; int(str(i)) == i; str(x), str(i) non-empty and whitespace-free',
     'Section hypotheses of C13_cycles: neg_pi_to_pi idempotent (validated bitwise on sampled angles); normalize idempotent '
     '(true in exact arithmetic; in doubles only up to 1 ulp -- measured, see coverage.oracle_hypotheses)',
+    'Section hypotheses of C13_cycles_n in addition: normalize keeps 4 entries, 0.0 == 0.0 (both validated), and on the graph: no NaN in an SE(3) offset parameter',
     'modelled, not verified: str.split/startswith/strip, readlines() universal newlines, dict insertion order, '
     'np.triu_indices/np.tril_indices order (checked exactly by the correspondence), np.array_equal, logging',
 ]
@@ -27,9 +28,8 @@ ASSUME = [
     'Graph._g2o_params is None or a dict whose keys equal the parameters\' own keys (as from_g2o builds it)',
     'no custom edge type whose to_g2o writes a line (outside C13\'s quantifier); custom edges whose to_g2o returns None are '
     'silently skipped by the writer (canon drops them) -- outside the quantifier, noted',
-    'a refused export may leave a truncated file behind (NotImplementedError is raised while writing): proved as '
-    'C13_refusal_leaves_no_file_refuted, matched against the implementation in coverage.correspondence.export.stats.refused_partial_file; '
-    'the property is read as "the call raises", not "the disk is untouched"',
+    'a refused export leaves no file (C13_refusal_leaves_no_file): checked against the implementation for every refused case of the '
+    'correspondence and of the direct oracle (ValueError and NotImplementedError alike)',
     'Vertex.fixed is not part of the format (never written, reader sets False): not part of canon',
     'chi2 is compared by the direct oracle only (bitwise when no number changed; 1e-9 relative when only wrap/normalize '
     'changed last bits); a measurement quaternion with w<0 or not of unit length is changed by normalize() itself -- chi2 '
@@ -44,7 +44,7 @@ def run(rep, tier, seed):
     rng = random.Random(seed)
     quick = tier == 'quick'
     # oracle hypotheses
-    hyp = corr_g2o.check_oracle_hypotheses(rng, 1000 if quick else 20000)
+    hyp = corr_g2o.check_oracle_hypotheses(rng, 600 if quick else 20000)
     rep.cov['oracle_hypotheses'] = {k: (v if not isinstance(v, list) else v[:5]) for k, v in hyp.items()}
     rep.obligation('oracle hypotheses parse(print x)=x, parse_id(print_id i)=i, tokens whitespace-free, identity offset = +0.0 '
                    'hold bitwise on %d sampled numbers' % hyp['parse_print'], not hyp['fail'], '; '.join(hyp['fail'][:3]))
@@ -54,8 +54,8 @@ def run(rep, tier, seed):
                    hyp['normq_idem_max_ulp'] <= 2.0, 'max deviation %r ulp' % hyp['normq_idem_max_ulp'])
     hyp_ok = not hyp['fail'] and not hyp['wrap_idem_fail'] and hyp['normq_idem_max_ulp'] <= 2.0
     # correspondence 4.4, export side + canon; import side (shared with C14, smaller here)
-    ce = corr_g2o.run_export(rng, 150 if quick else 1500, 'c13_exp')
-    ci = corr_g2o.run_import(rng, 40 if quick else 400, 'c13_imp')
+    ce = corr_g2o.run_export(rng, 90 if quick else 1500, 'c13_exp')
+    ci = corr_g2o.run_import(rng, 30 if quick else 400, 'c13_imp')
     for nm, c in (('export+canon', ce), ('import', ci)):
         c_ok = not c['disagreements'] and not c['coq_errors'] and c['evaluations'] > 0
         rep.obligation('correspondence 4.4 (%s): G2OModel evaluated in Coq agrees with graphslam on %d cases' % (nm, c['evaluations']),
@@ -66,7 +66,7 @@ def run(rep, tier, seed):
                                  'import': {k: ci[k] for k in ('evaluations', 'agree', 'stats')},
                                  'coq_errors': len(ce['coq_errors']) + len(ci['coq_errors']), 'custom_edge_types': corr_g2o.CUSTOM_SRC}
     # direct oracle: 1..5 cycles
-    n, fails, st = corr_g2o.oracle_roundtrip(rng, 120 if quick else 1500, cycles=5)
+    n, fails, st = corr_g2o.oracle_roundtrip(rng, 70 if quick else 1500, cycles=5)
     flip = st.pop('chi2_sign_flip_example', None)
     rep.cov['oracle'] = st
     rep.cov['evaluations'] = ce['evaluations'] + ci['evaluations'] + n
